@@ -580,6 +580,24 @@ def opt_las(R):
                         detail=f"load of x forwarded to {'the value of a store that is not the last store to x / across a call' if forwarded else ''} (sequence: {[type(i).__name__ + ('!' if getattr(i, 'Store', None) is not None else '') for i in seq]})")
                 R.check(f"IR.opt.las.paired[{label}]", LAS + ".v_VariableAccessInstruction", forwarded == removed and len(ru) <= 1 and len(rp) <= 1,
                         detail=f"forwarding registered={forwarded}, removal registered={removed}, other pending entries: {len(ru)} / {len(rp)}")
+    # Aggregates: a STORE gives the variable its own copy of an array / struct (VM.step.STORE.no-sharing-with-the-source), so the value of the
+    # load that follows is NOT the stored object; arrays and structs are then updated in place through the loaded object.  Forwarding such a
+    # load to the stored value would redirect those writes to the source of the assignment.
+    st_t = ir.StructureType(collections.OrderedDict([("a", I)]), name="S")
+    for tl, vt in (("int[2]", ir.ArrayType(I, [2])), ("int[2][3]", ir.ArrayType(I, [2, 3])), ("struct", st_t)):
+        for scope in (S.FUNCTION_LOCAL, S.GLOBAL, S.FUNCTION_ARGUMENT):
+            f, bb = fresh_function()
+            v = val(bb, vt)
+            sti = ir.VariableAccessInstruction(vt, "x", scope)
+            sti.SetStore(v)
+            bb.AddInstruction(sti)
+            ld = bb.AddInstruction(ir.VariableAccessInstruction(vt, "x", scope))
+            bb.AddInstruction(ir.ReturnInstruction(ld))
+            f.UpdateUses()
+            cls().v_Generic(ld, None)
+            ru, rp = _pending(bb)
+            R.check(f"IR.opt.las.aggregates[{tl},{scope.name}]", LAS + ".v_VariableAccessInstruction", not ru and not rp,
+                    detail=f"a load of an {tl} variable directly after a store to it was forwarded to the stored value (pending use replacements {list(ru)}, replacements {list(rp)})")
     # a load that opens a block is never forwarded, whatever precedes it in layout order or follows it in its own block
     for variant in ("previous-block-ends-with-store", "own-block-ends-with-store", "only-instruction"):
         f, bb = fresh_function()
